@@ -177,6 +177,16 @@ CHECKS = {
             "compared with what probes, dispatcher log and responder observed. Four seeded mutants are caught.",
             "Trusted: the reference machine (our reading of the statement), scripted dispatcher. First login (key upload, reconnect) precedes the judged history. Real socket/asyncore dispatchers: see DESIGN.md.",
             "DESIGN.md 4/C16"),
+    "C09": ("exploration",
+            "runtime monitor: strict by-value tree comparator over stanza->entity->stanza executions for every receive-side class (repository fixtures with re-drawn values + 22 hand-transcribed shapes) and codec round trips (library + reference decoder) of every sendable entity",
+            "57 entity fixtures taken from the repository's own entity test modules (structure kept, every free leaf value "
+            "re-drawn by kind, repeated children varied) and 22 documented shapes transcribed by hand for receive-side classes "
+            "without a fixture are converted to their entity and back (300 draws per class quick, 6 000 thorough) and compared "
+            "with a strict comparator (numbers by value; protobuf payloads field-wise). 34 application/library-sendable entity "
+            "constructors with generated arguments plus generated message entities are serialised and pushed through the "
+            "library encoder, the library decoder and the independent reference decoder.",
+            "Trusted: vf/catalogue.py (our transcription of the documented shapes), vf/refcodec.py. Enumeration-valued attributes keep the documented literal.",
+            "DESIGN.md 4/C09"),
 }
 
 NOT_BUILT = "check not built yet in this session (planned, see DESIGN.md section 4)"
